@@ -342,9 +342,11 @@ class Resolver:
             if name == 'cls' and func.cls is not None and 'classmethod' in func.decorators:
                 return self._ctor(func.cls)
             # local function defined in this function?
-            for n in own_nodes(func.node):
-                if isinstance(n, ast.FunctionDef) and n.name == name:
-                    return Res('package', [n._func])
+            nested = getattr(func, '_nested_defs', None)
+            if nested is None:
+                nested = func._nested_defs = {n.name: n for n in own_nodes(func.node) if isinstance(n, ast.FunctionDef)}
+            if name in nested:
+                return Res('package', [nested[name]._func])
             if name in func.params + func.kwonly or self.local_assignments(func, name) or self._is_loop_target(func, name):
                 # a value, not a global: is it a class/function alias?
                 vals = [v for v in self.local_assignments(func, name) if not isinstance(v, tuple)]
